@@ -6,7 +6,12 @@ CASE tuple; this module writes a case as GFA1 / GFA2 text and runs the real gfap
 Code -> spec: what gfapy answered and the full projection of the object graph before and after the
 call are written to JSON; spec/TraceGraphOps.tla recomputes the chains / the merged graph / the
 multiplication post-condition from the *observed* pre-state with the operators of LinearPaths.tla
-and Multiply.tla and prints <<"REJECT", case, clauses>>.  Nothing is judged in Python."""
+and Multiply.tla and prints <<"REJECT", case, clauses>>.  Nothing is judged in Python.
+
+Beyond plain graphs the enumerations hold: sequences over the whole IUPAC alphabet; parallel dovetails
+with another overlap and, in GFA2, repeated anonymous E lines (identical twins); for C15 fans (all
+dovetails on one segment, more links on an end than the factor) and graphs with placeholders (virtual
+links under GFA1 paths, a segment without S line; built at vlevel 0 or with append())."""
 import json, os, random, signal, sys, time, copy
 from multiprocessing import Pool as MPool
 
@@ -41,7 +46,8 @@ def mc_graphs(module, nseg, maxlinks, name, invariants, lawlinks=None):
                           segs=[dict(name=s[0], seq="".join(s[1]) or "*", len=s[2], ln=s[3],
                                      tags=list(s[4]) if len(s) > 4 else []) for s in v[2]],
                           links=[dict(n1=l[0], t1=l[1], n2=l[2], t2=l[3], ov=l[4],
-                                      tags=list(l[5]) if len(l) > 5 else []) for l in v[3]],
+                                      tags=list(l[5]) if len(l) > 5 else [],
+                                      twin=l[6] if len(l) > 6 else 0) for l in v[3]],
                           conts=[dict(n1=c[0], o1=c[1], n2=c[2], o2=c[3], pos=c[4], ov=c[5], tags=list(c[6]))
                                  for c in (v[4] if len(v) > 4 else [])]))
     if st is None or len(cases) != st[1]:
@@ -68,7 +74,25 @@ def gfa2_writable(case):
     return all(c == "M" for l in case["links"] for _n, c in _cigar(l["ov"]))
 
 
-def gfa_text(case, ver):
+def has_identical_twins(case):
+    """two or three dovetails with the same ends and the same overlap: GFA1 refuses a repeated
+    link, GFA2 admits repeated anonymous E lines"""
+    return any(l.get("twin", 0) >= 2 for l in case["links"])
+
+
+def has_placeholders(case):
+    """P lines over steps that no L line may join, or a segment without S line (MC_Multiply, profile 5)"""
+    return bool(case.get("paths")) or any(not s.get("sline", 1) for s in case["segs"])
+
+
+def anonymous(case):
+    """the same case with every GFA2 edge written without identifier (`*`)"""
+    c = dict(case)
+    c["links"] = [dict(l, eid="*") for l in case["links"]]
+    return c
+
+
+def gfa_text(case, ver, order=None):
     """The GFA1 / GFA2 text of an enumerated case (list of lines).  A dovetail between the ends
     (n1,t1) and (n2,t2) is written from n1 to n2: leaving n1 through R is n1+, entering n2
     through L is n2+.  TraceGraphOps re-derives the graph from gfapy's own rendering of the
@@ -76,6 +100,8 @@ def gfa_text(case, ver):
     lens = {s["name"]: s["len"] for s in case["segs"]}
     out = []
     for s in case["segs"]:
+        if not s.get("sline", 1):
+            continue                               # a segment that is only mentioned (placeholder)
         if ver == "gfa1":
             f = ["S", s["name"], s["seq"]]
             if s["ln"]:
@@ -101,6 +127,9 @@ def gfa_text(case, ver):
                     f += ["0", str(k)]
             f.append(_ov1(l["ov"]))
         out.append("\t".join(f + l["tags"] + idtag))
+    if order:                                      # the dovetail lines in another order
+        first = len(out) - len(case["links"])
+        out[first:] = [out[first + k] for k in order]
     for i, c in enumerate(case["conts"]):
         # container n1 (orientation o1) contains n2 (o2) from position pos
         idtag = ["ID:Z:" + c["eid"]] if c["eid"] != "*" else []
@@ -113,6 +142,8 @@ def gfa_text(case, ver):
                  str(c["pos"]), "%d%s" % (e, "$" if e == lens[c["n1"]] else ""),
                  "0", "%d$" % lens[c["n2"]], _ov1(c["ov"])]
         out.append("\t".join(f + c["tags"] + idtag))
+    for name, steps, ovs in case.get("paths", []):
+        out.append("\t".join(["P", name, ",".join(steps), ",".join(ovs)]))
     return out
 
 
@@ -288,12 +319,15 @@ def _intended(case, ver):
     observed pre-state (GFA1 text without LN and without sequence has no length)."""
     segs = []
     for s in case["segs"]:
+        if not s.get("sline", 1):
+            continue
         known = ver == "gfa2" or s["ln"] or s["seq"] != "*"
         segs.append(dict(name=s["name"], seq=[] if s["seq"] == "*" else list(s["seq"]),
                          len=s["len"] if known else -1))
     links = [dict(e1=[l["n1"], l["t1"]], e2=[l["n2"], l["t2"]],
                   ov=[dict(n=n, c=c) for n, c in _cigar(l["ov"])]) for l in case["links"]]
-    return dict(segs=segs, links=links, nconts=len(case["conts"]))
+    # virtok: the case was built to contain placeholders (virtual lines)
+    return dict(segs=segs, links=links, nconts=len(case["conts"]), virtok=1 if has_placeholders(case) else 0)
 
 
 # --------------------------------------------------------------------------
@@ -383,7 +417,7 @@ def _summary(r):
     """What the parent process keeps of a record (the records themselves go to the shard file)."""
     m1 = r.get("m1", {})
     return dict(id=r["id"], kind=r["kind"], ver=r["ver"], text=r["text"], short=r.get("short", 0),
-                call=r.get("call"), args=r.get("args"), broken=r.get("broken"),
+                call=r.get("call"), args=r.get("args"), broken=r.get("broken"), virt_on_seg=r.get("virt_on_seg", 0),
                 m1=dict(res=m1.get("res"), exc=m1.get("exc")),
                 m2=dict(res=r.get("m2", {}).get("res"), exc=r.get("m2", {}).get("exc")),
                 lps=dict(res=r.get("lps", {}).get("res"), paths=r.get("lps", {}).get("paths", [])))
@@ -469,10 +503,14 @@ def c14_jobs(tier, seed, out=None):
         cases = base + rest + sample
     jobs = []
     for i, c in enumerate(cases):
+        ident = has_identical_twins(c)
         for ver in ("gfa1", "gfa2"):
             if ver == "gfa2" and not gfa2_writable(c):
                 continue
-            jobs.append(dict(id="c14-%d-%s" % (i, ver), ver=ver, case=c, short=(c["prof"] == 3)))
+            if ver == "gfa1" and ident:
+                continue
+            jobs.append(dict(id="c14-%d-%s" % (i, ver), ver=ver, case=anonymous(c) if ident else c,
+                             short=(c["prof"] == 3)))
     if out is not None:
         per = {}
         for j in jobs:
@@ -482,7 +520,8 @@ def c14_jobs(tier, seed, out=None):
                                             for l in j["case"]["links"] for _n, c in _cigar(l["ov"])))
         out.add_cov(spec_states=st1[1] + st2[1], spec_transitions=st1[0] + st2[0], bounds=bounds,
                     cases_per_profile=json.dumps(per, sort_keys=True),
-                    cases_with_eq_x_or_multi_op_overlap=joined)
+                    cases_with_eq_x_or_multi_op_overlap=joined,
+                    cases_with_identical_parallel_edges=sum(1 for j in jobs if has_identical_twins(j["case"])))
     return jobs
 
 
@@ -550,8 +589,10 @@ def check_c14(out, tier, seed):
     out.assumptions += [
         "TLC and the TLA+ semantics of spec/LinearPaths.tla, Gfa.tla (dovetail ends), TraceGraphOps.tla",
         "harness/project.py + GPool: syntactic abstraction of written lines and object references",
-        "graphs of <= 4 segments and <= 4 dovetails (plus two parallel twins); overlaps `*` or CIGARs of 1-2 "
+        "graphs of <= 4 segments and <= 4 dovetails (plus two parallel twins, and in GFA2 repeated anonymous "
+        "edges); overlaps `*` or CIGARs of 1-2 "
         "operations over {M, =} of total length <= 2 (3M on the twins); with X: merge or clean refusal accepted",
+        "sequences over the IUPAC nucleotide alphabet without U, both cases (complement table of LinearPaths.tla)",
     ]
 
 
@@ -574,10 +615,13 @@ def mc_multiply(nseg, maxlinks, lawlinks, name):
         cases.append(dict(prof=v[1],
                           segs=[dict(name=s[0], seq="".join(s[1]) or "*", len=s[2], ln=s[3], tags=list(s[4]))
                                 for s in v[2]],
-                          links=[dict(n1=l[0], t1=l[1], n2=l[2], t2=l[3], ov=l[4], tags=list(l[5]), eid=l[6])
-                                 for l in v[3]],
+                          links=[dict(n1=l[0], t1=l[1], n2=l[2], t2=l[3], ov=l[4], tags=list(l[5]), eid=l[6],
+                                      twin=l[7]) for l in v[3]],
                           conts=[dict(n1=c[0], o1=c[1], n2=c[2], o2=c[3], pos=c[4], ov=c[5], tags=list(c[6]),
-                                      eid=c[7]) for c in v[4]]))
+                                      eid=c[7]) for c in v[4]],
+                          paths=[[p_[0], list(p_[1]), list(p_[2])] for p_ in v[5]], opt=v[7]))
+        for i, s in enumerate(cases[-1]["segs"]):
+            s["sline"] = 1 if (i + 1) in v[6] else 0
     if st is None or len(cases) != st[1]:
         raise MachineryError("MC_Multiply printed %d cases for %s distinct states" % (len(cases), st))
     cases.sort(key=lambda c: json.dumps(c, sort_keys=True))
@@ -595,13 +639,26 @@ def run_c15(job, pool=None):
     gfapy = _load_gfapy()
     signal.signal(signal.SIGVTALRM, _alarm)
     case, ver, a = job["case"], job["ver"], job["arg"]
-    text = gfa_text(case, ver)
+    text = gfa_text(case, ver, job.get("order"))
     pool = pool or GPool()
     uni = _universe(case)
     seg = case["segs"][a["seg"] - 1]["name"]
     names = list(job["given"][:a["k"] - 1]) if a["names"] == "given" and a["k"] >= 2 else []
     call = "multiply(%r, %d, copy_names=%r, distribute=%r)" % (seg, a["k"], names or None, a["policy"])
-    res, exc, gfa = _guard(lambda: gfapy.Gfa(text, version=ver))
+    # placeholders exist only below validation level 1 (a path over an undefined link is refused there)
+    # (or when the lines are appended one by one and the Gfa is never validated as a whole)
+    build = job.get("build") or ("vlevel0" if has_placeholders(case) else "")
+
+    def construct():
+        if build == "append":
+            g = gfapy.Gfa(version=ver)
+            for t in text:
+                g.append(t)
+            return g
+        return gfapy.Gfa(text, version=ver, **(dict(vlevel=0) if build == "vlevel0" else {}))
+    if build:
+        call += " after " + ("Gfa() + append(line) for every line" if build == "append" else "Gfa(..., vlevel=0)")
+    res, exc, gfa = _guard(construct)
     rec = dict(id=job["id"], kind="c15", ver=ver, text=text, call=call,
                args=dict(seg=seg, k=a["k"], policy=a["policy"], names=names),
                intended=_intended(case, ver), load=res)
@@ -610,6 +667,9 @@ def run_c15(job, pool=None):
         rec["pool"] = pool.items
         return rec
     rec["pre"] = observe(gfa, pool, uni)
+    # (coverage only) placeholder edges on the segment that is multiplied
+    rec["virt_on_seg"] = sum(1 for ln in rec["pre"].get("lines", []) if ln["virt"] and any(
+        x["id"] == seg for x in pool.items[ln["p"] - 1]["refs"]))
     r, e, _v = _guard(lambda: gfa.multiply(seg, a["k"], copy_names=(names or None), distribute=a["policy"]))
     rec["m1"] = dict(res=r, exc=e, obs=observe(gfa, pool, uni))
     rec["pool"] = pool.items
@@ -622,34 +682,64 @@ def c15_jobs(tier, seed, out=None):
     rnd = random.Random(seed)
     if tier == "quick":
         shapes, args, given, st = mc_multiply(3, 3, 2, "graphops-mc15")
-        plan = {0: 4, 1: 4, 2: 4, 3: 0.7}          # dovetails in the graph -> argument tuples per graph
+        plan = {0: 4, 1: 4, 2: 4, 3: 0.55}         # dovetails in the graph -> argument tuples per graph
+        fan = {0: 0, 1: 2, 2: 3, 3: 3, 4: 1}       # ... in a fan (profile 4)
+        plh = 1.5                                  # ... in a graph with placeholders (profile 5)
     else:
         shapes, args, given, st = mc_multiply(3, 4, 2, "graphops-mc15")
         plan = {0: len(args), 1: len(args), 2: len(args), 3: 4, 4: 0.5}
+        fan = {0: 0, 1: 20, 2: 20, 3: 20, 4: 4, 5: 1}
+        plh = 8
     # argument tuples that multiply (factor >= 2) are what the property is about: weight them
     heavy = [a for a in args if a["k"] >= 2]
     light = [a for a in args if a["k"] < 2]
+    # a fan has its dovetails on segment 1: multiply that one, mostly with distribution
+    hub = [a for a in heavy if a["seg"] == 1]
+    hubd = [a for a in hub if a["policy"] in ("L", "R", "auto")]
     jobs = []
     per = {}
     for c in shapes:
-        m = plan[len(c["links"])]
-        if m >= len(args):
-            pick = list(args)
-        elif m < 1:
-            pick = [rnd.choice(heavy)] if rnd.random() < m else []
+        nl = len(c["links"])
+        if c["prof"] == 4:
+            m = min(fan[nl], len(hub))
+            nd = min(len(hubd), (m * 3 + 3) // 4)
+            pick = rnd.sample(hubd, nd)
+            pick += rnd.sample([a for a in hub if a not in pick], m - nd)
+        elif c["prof"] == 5:
+            # a segment without S line is not a segment of the graph: not multiplied
+            real = [a for a in heavy if c["segs"][a["seg"] - 1]["sline"]]
+            m = int(plh) + (1 if rnd.random() < plh - int(plh) else 0)
+            pick = rnd.sample(real, min(m, len(real)))
         else:
-            pick = rnd.sample(heavy, m - 1) + [rnd.choice(light if rnd.random() < 0.5 else heavy)]
+            m = plan[nl]
+            if m >= len(args):
+                pick = list(args)
+            elif m < 1:
+                pick = [rnd.choice(heavy)] if rnd.random() < m else []
+            else:
+                pick = rnd.sample(heavy, m - 1) + [rnd.choice(light if rnd.random() < 0.5 else heavy)]
         for a in pick:
-            ver = rnd.choice(("gfa1", "gfa2"))
-            jobs.append(dict(id="c15-%d" % len(jobs), ver=ver, case=c, arg=a, given=given))
-        per[len(c["links"])] = per.get(len(c["links"]), 0) + len(pick)
+            # a repeated link exists in GFA2 only, placeholders for path steps in GFA1 only
+            ver = "gfa2" if has_identical_twins(c) else "gfa1" if has_placeholders(c) else \
+                rnd.choice(("gfa1", "gfa2"))
+            order = list(range(nl))
+            rnd.shuffle(order)                     # the dovetail lines are written in a seeded order
+            build = rnd.choice(("vlevel0", "append")) if has_placeholders(c) else ""
+            jobs.append(dict(id="c15-%d" % len(jobs), ver=ver, case=c, arg=a, given=given, order=order,
+                             build=build))
+        key = "%d%s" % (nl, {4: " (fan)", 5: " (placeholders)"}.get(c["prof"], ""))
+        per[key] = per.get(key, 0) + len(pick)
     if out is not None:
         out.add_cov(spec_states=st[1], spec_transitions=st[0], argument_tuples=len(args),
+                    cases_with_identical_parallel_edges=sum(1 for j in jobs if has_identical_twins(j["case"])),
+                    cases_built_with_placeholders=sum(1 for j in jobs if has_placeholders(j["case"])),
                     bounds="3 segments x <= %d dovetails (21 end pairs + 2 parallel twins) x 4 containment options "
-                    "x 3 profiles = %d graphs; argument catalogue = segment x {-1,0,1} + segment x {2,3} x "
+                    "x 3 profiles, fans of <= %d dovetails on one segment (11 end pairs, each with a twin of another "
+                    "overlap and an identical twin), graphs of <= 2 dovetails with 6 path / missing-segment options "
+                    "= %d graphs; argument catalogue = segment x {-1,0,1} + segment x {2,3} x "
                     "5 policies x {automatic, given names} = %d tuples; cases per number of dovetails: %s "
                     "(all tuples when the plan says %d, seeded samples otherwise); GFA1/GFA2 chosen by the seed"
-                    % (max(plan), len(shapes), len(args), json.dumps(per, sort_keys=True), len(args)))
+                    % (max(plan), max(fan), len(shapes), len(args), json.dumps(per, sort_keys=True), len(args)))
     return jobs
 
 
@@ -679,6 +769,7 @@ def check_c15(out, tier, seed):
     out.violations[:] = _order(out.violations)
     nt = {json.dumps([r["text"], r["call"]]) for r in recs if _c15_nontrivial(r)}
     out.add_cov(evaluations=len(recs), distinct_nontrivial=len(nt), traces_validated=states,
+                cases_with_placeholder_edge_on_segment=sum(1 for r in recs if r.get("virt_on_seg")),
                 rule="case = one enumerated graph (GFA1 or GFA2 text) and one argument tuple of multiply(), "
                      "pre- and post-state judged by TraceGraphOps with Multiply.tla; non-trivial = distinct "
                      "(text, call) with factor >= 2 that returned and whose segment has at least one edge",
@@ -688,7 +779,8 @@ def check_c15(out, tier, seed):
     out.assumptions += [
         "TLC and the TLA+ semantics of spec/Multiply.tla, Gfa.tla (dovetail ends), TraceGraphOps.tla",
         "harness/project.py + GPool: syntactic abstraction of written lines and object references",
-        "graphs of 3 segments, <= 4 dovetails, <= 2 containments; factors -1..3",
+        "graphs of 3 segments, <= 4 dovetails (<= 5 in a fan on one segment, with parallel and repeated links), "
+        "<= 2 containments; placeholders: virtual links of GFA1 paths and one undefined segment; factors -1..3",
     ]
 
 
@@ -844,6 +936,61 @@ def selftest():
     mutant("successor trimmed by the M operations only", base14e, "C14.sequence",
            lambda r: _repoint(r, "m1", is_merged,
                               lambda x: x.update(seq=list("AACGTCGA"), f=["AACGTCGA"], ln=8, num=[8])))
+    # a member read backwards whose sequence holds IUPAC codes: D and H left uncomplemented
+    g14r = _case([("A", "AaDHC", ()), ("B", "dhBvM", ())], [("A", "R", "B", "R", 1, ())])
+    base14r = run_c14(dict(id="st14r", ver="gfa1", case=g14r, short=False))
+    variants.append(("c14 with a reversed IUPAC member as recorded", base14r, None))
+    swap = dict(zip("DHdh", "HDhd"))
+    mutant("D and H not complemented", base14r, "C14.sequence",
+           lambda r: _repoint(r, "m1", is_merged, lambda x: x.update(seq=[swap.get(ch, ch) for ch in x["seq"]])))
+    # two identical anonymous E lines on the outer end of a chain (GFA2): one of them lost
+    g14i = _case([("A", "AACGT", ()), ("B", "CCGA", ()), ("C", "GTTA", ())],
+                 [("A", "R", "B", "L", 1, ()), ("B", "R", "C", "L", 1, ()), ("B", "R", "C", "L", 1, ())])
+    base14i = run_c14(dict(id="st14i", ver="gfa2", case=g14i, short=False))
+    variants.append(("c14 with identical parallel edges as recorded", base14i, None))
+    mutant("one of two identical inherited edges dropped", base14i, "C14.links",
+           lambda r: _drop_line(r["m1"]["obs"], lambda x: x["rt"] == "E" and any("_" in y["id"] for y in x["refs"]),
+                                r["pool"]))
+    # link distribution on an end with parallel links and more links than the factor
+    g15f = _case([("A", "AACGT", ()), ("B", "CCG", ()), ("C", "GTTA", ())],
+                 [("A", "R", "B", "L", 1, ()), ("A", "R", "B", "L", 2, ()), ("A", "R", "C", "L", 1, ())])
+    base15f = run_c15(dict(id="st15f", ver="gfa1", case=g15f, given=["cp1", "cp2"],
+                           arg=dict(seg=1, k=2, policy="R", names="auto")))
+    variants.append(("c15 distribution over parallel links as recorded", base15f, None))
+
+    def drop_all(r, pred):
+        while any(pred(r["pool"][ln["p"] - 1]) for ln in r["m1"]["obs"]["lines"]):
+            _drop_line(r["m1"]["obs"], pred, r["pool"])
+    mutant("a neighbour lost all its links to the copies", base15f, "C15.distribution",
+           lambda r: drop_all(r, lambda x: x["rt"] == "L" and any(y["id"] == "C" for y in x["refs"])))
+    # placeholders (virtual links of a path whose steps no L line joins), GFA1 at validation level 0
+    g15v = dict(_case([("A", "AACGT", ()), ("B", "CCG", ()), ("C", "GTTA", ())], [("A", "R", "B", "L", 1, ())]),
+                paths=[["p1", ["A+", "B+", "C+"], ["*"]]])
+    base15v = run_c15(dict(id="st15v", ver="gfa1", case=g15v, given=["cp1", "cp2"],
+                           arg=dict(seg=2, k=2, policy="off", names="auto")))
+    base15w = run_c15(dict(id="st15w", ver="gfa1", case=g15v, given=["cp1", "cp2"],
+                           arg=dict(seg=1, k=2, policy="off", names="auto")))
+    variants.append(("c15 next to a placeholder link as recorded", base15v, None))
+    variants.append(("c15 away from a placeholder link as recorded", base15w, None))
+
+    def make_real(r):
+        for ln in r["m1"]["obs"]["lines"]:
+            x = r["pool"][ln["p"] - 1]
+            if ln["virt"] == 1 and x["rt"] == "L" and any("*" in y["id"] for y in x["refs"]):
+                ln["virt"] = 0
+                return
+        raise MachineryError("selftest: no placeholder link on the copy")
+    mutant("placeholder link of the copy became a real link", base15v, "C15.edges", make_real)
+
+    def lose_placeholder(r):
+        obs = r["m1"]["obs"]
+        idx = next(i for i, ln in enumerate(obs["lines"]) if ln["virt"] == 1)
+        mark = copy.deepcopy(r["pool"][obs["lines"][idx]["p"] - 1])
+        mark["otags"] = ["zz:Z:selftest"]
+        r["pool"].append(mark)
+        obs["lines"][idx]["p"] = len(r["pool"])
+        _drop_line(obs, lambda x: x.get("otags") == ["zz:Z:selftest"], r["pool"])
+    mutant("placeholder link of the rest lost", base15w, "C15.rest", lose_placeholder)
     recs = [r for _, r, _ in variants]
     for r in recs:
         if "broken" in r:
